@@ -136,8 +136,34 @@ func c18Resolve(r *core.R) *c18Ctx {
 			c.table, c.keyF, c.condF, c.valsF = v, k, cd, vl
 		}
 	}
+	if len(cands) > 1 {
+		// several slices of rule structs (e.g. a second, literal table for relations): the way table is the one the
+		// classification of ways consults, i.e. the one mentioned by (*Way).Polygon or a function it calls
+		used := map[*types.Var]bool{}
+		for _, fd := range c18Reachable(pk, c.funcs, fi.Decl) {
+			ast.Inspect(fd.Body, func(n ast.Node) bool {
+				if id, ok := n.(*ast.Ident); ok {
+					if v, ok := c.info.Uses[id].(*types.Var); ok {
+						used[v] = true
+					}
+				}
+				return true
+			})
+		}
+		var keep []*types.Var
+		for _, v := range cands {
+			if used[v] {
+				keep = append(keep, v)
+			}
+		}
+		cands = keep
+		if len(cands) == 1 {
+			c.table = cands[0]
+			_, c.keyF, c.condF, c.valsF = c18RuleStruct(c.table.Type())
+		}
+	}
 	if len(cands) != 1 {
-		r.Anchor(fmt.Sprintf("exactly one package-level slice of rule structs whose fields have the JSON names key, polygon, values (the published file format); found %d", len(cands)))
+		r.Anchor(fmt.Sprintf("exactly one package-level slice of rule structs whose fields have the JSON names key, polygon, values (the published file format) that (*Way).Polygon consults; found %d", len(cands)))
 		return nil
 	}
 	if b, ok := c.keyF.Type().Underlying().(*types.Basic); !ok || b.Kind() != types.String {
